@@ -282,6 +282,37 @@ def gen_boundary_cases():
     return out
 
 
+def gen_panic_cases():
+    """Deterministic family: a panic raised in a task of every kind (spawn_local, tokio::spawn detached /
+    awaited / spawned by a local task) of a client, a host or a bounced host, at virtual times around
+    the completion of the client; driven by Sim::run and by Sim::step."""
+    out = []
+    tick = 2 * MS
+    for kind in ("local", "spawn", "spawn_awaited", "nested"):
+        for where in ("client", "host", "bounced"):
+            for pt in (0, 1, 2, 4, 6):
+                for cs in (3, 4):
+                    for drive in ("run", "steps"):
+                        task = {"ops": [["sleep", pt * MS]], "end": "panic"}
+                        if kind != "local":
+                            task["kind"] = kind
+                        quiet = {"main": [["sleep", 100 * MS]], "end": "never", "ticker": True, "tasks": []}
+                        bad = {"main": [["sleep", 100 * MS]], "end": "never", "ticker": False, "tasks": [task]}
+                        client = {"main": [["sleep", cs * MS]], "end": "ok", "ticker": False, "tasks": []}
+                        script = []
+                        if where == "client":
+                            script += [["host", [quiet]], ["client", dict(client, tasks=[task])]]
+                        elif where == "host":
+                            script += [["host", [bad]], ["client", client]]
+                        else:
+                            script += [["host", [quiet, bad]], ["step"], ["bounce", {"h": 0}], ["client", client]]
+                        script += [["run"]] if drive == "run" else [["step"]] * 5
+                        script += [["probe"]]
+                        cfg = {"tick_ns": tick, "duration_ns": 100 * MS, "epoch_ns": 11, "random_order": (pt + cs) % 2 == 0, "seed": pt}
+                        out.append({"cfg": cfg, "script": script, "flavour": "run-panics"})
+    return out
+
+
 def gen_step_case(rng):
     """The same mixes driven by Sim::step only (step consistent with run)."""
     c = gen_run_case(rng, odd=0.05)
@@ -330,7 +361,10 @@ class Spec(PropSpec):
         ex = gen_boundary_cases()
         if ctx.tier == "quick":
             ex = ctx.rng.sample(ex, 160)
-        return ex + cases
+        pc = gen_panic_cases()
+        if ctx.tier == "quick":
+            pc = ctx.rng.sample(pc, 120)
+        return pc + ex + cases
 
     def to_model(self, case, obs):
         return F.to_model(case, obs)
